@@ -12,6 +12,7 @@ import EaselModel.Msafile.Dump
 import EaselModel.Msafile.Guess
 import EaselModel.Msafile.StoNum
 import EaselModel.Msafile.OpenByName
+import EaselModel.Msafile.OpenGz
 /-! Line-protocol driver for the C01 model: `parse fmt=… abc=… src=… ps=… [sfx=…] hex=…`.  The page size is irrelevant to the
     model (it sits on the abstract line reader); the source only decides whether the buffer has a file name
     (`esl_msafile_Open`: `h_msafile_<pid>.<sfx>`; memory and streams have none), which format autodetection looks at.
@@ -100,6 +101,18 @@ def openErrOp (ws : List String) : String :=
     let what := (arg? ws "what").getD "missing"
     let path : Bytes := [104, 95, 109, 115, 97, 102, 105, 108, 101, 95, 48, 46] ++ ((arg? ws "sfx").getD "dat").toUTF8.toList
     let bytes := (argHex? ws "hex").getD []
+    if what == "gz" then
+      -- `h_msafile_<pid>.<sfx>.gz` through `gzip -dc`: `unz=` = what gzip delivers (absent: the command fails)
+      let g : GzKind := match argHex? ws "unz" with
+        | some u => .bytes u
+        | none => .failed
+      match openGz 0 fs as (path ++ bGz) g with
+      | .efail _ => "open=fail"
+      | .opened .enoformat => "open=enoformat"
+      | .opened .enoalphabet => "open=enoalphabet"
+      | .opened .fault => "fault"
+      | .opened (.ok o) => "open=ok fmt=" ++ fmtName o.fmt ++ " abc=" ++ abcName o.abc ++ readAll o.readV 64 (splitLines ((argHex? ws "unz").getD []))
+    else
     let pk : PathKind := if what == "envfile" then .file path bytes else if what == "dir" then .directory else .missing
     match openByName 0 fs as pk with
     | .enotfound _ => "open=enotfound"
